@@ -43,11 +43,13 @@
 (*                 losses this only costs one needless setRecord; with a   *)
 (*                 lost designation transaction (Lose, at most MaxLoss     *)
 (*                 times, unfair) it is a livelock.                        *)
+(*   "StaleAdd"    a signer whose own record is stale publishes the new    *)
+(*                 signature with addRecord instead of setRecord (SReplace)*)
 (* With all switches off the module describes the repaired code.           *)
 (***************************************************************************)
 EXTENDS Integers, Sequences, FiniteSets, TLC
 
-CONSTANTS N, Life, G, MaxCancel, Absent, Dev, MaxLoss
+CONSTANTS N, Life, G, MaxCancel, Absent, Dev, MaxLoss, MaxElapse
 
 Members == 0..(N - 1)
 Signers == 1..(N - 1)
@@ -55,12 +57,15 @@ Maj     == N - ((N - 1) \div 2)
 Need    == Maj - 1              \* remote signatures the leader needs
 TxDom   == -1                   \* designate-committee-notary-tx.bootstrap; signer domains are their indices
 None    == -1
+Old     == -2                  \* a record made for shared data that has been re-created since
+MaxRecords == 3               \* bound of the record list of one domain (16 in the contract)
 
 VARIABLES
   \* chain
   doms,     \* registered domains of the bootstrap zone
   shared,   \* [gen, age]: generation (models the nonce) and age of the shared data record; gen = None: no record
-  sig,      \* sig[j] = generation whose checksum prefixes the signature record in domain j (None: no record)
+  sig,      \* sig[j] = the TXT records of signer j's domain in order, each the generation whose checksum prefixes the
+            \* signature; readers (leader and the signer itself) look at the FIRST record only (lookupNNSDomainRecord)
   pool,     \* pooled transactions
   ntrIn,    \* None: nothing; 1: designation executed in the last block (effective from the next one); 0: role visible
   \* leader (multi-tick context of the closure)
@@ -72,17 +77,17 @@ VARIABLES
   \* signers
   stx,
   \* scheduling
-  alive, ticked, cancels, gen, badAssembled, losses
-vars == <<doms, shared, sig, pool, ntrIn, ltx, lsigs, fully, lgood, tried, stx, alive, ticked, cancels, gen, badAssembled, losses>>
+  alive, ticked, cancels, gen, badAssembled, losses, elapses
+vars == <<doms, shared, sig, pool, ntrIn, ltx, lsigs, fully, lgood, tried, stx, alive, ticked, cancels, gen, badAssembled, losses, elapses>>
 
 Ntr == ntrIn = 0
 
 Init ==
-  /\ doms = {} /\ shared = [gen |-> None, age |-> 0] /\ sig = [j \in Members |-> None] /\ pool = {} /\ ntrIn = None
+  /\ doms = {} /\ shared = [gen |-> None, age |-> 0] /\ sig = [j \in Members |-> <<>>] /\ pool = {} /\ ntrIn = None
   /\ ltx = None /\ lsigs = {} /\ fully = FALSE /\ lgood = TRUE /\ tried = FALSE
   /\ stx = [j \in Members |-> None]
   /\ alive = [i \in Members |-> i \notin Absent] /\ ticked = [i \in Members |-> FALSE] /\ cancels = 0 /\ gen = 0
-  /\ badAssembled = FALSE /\ losses = 0
+  /\ badAssembled = FALSE /\ losses = 0 /\ elapses = 0
 
 Done(i) == ticked' = [ticked EXCEPT ![i] = TRUE]
 Sent(k) == \E t \in pool : t.k = k.k /\ t.by = k.by       \* the monitor of that kind of transaction is pending
@@ -101,7 +106,7 @@ Generate ==
 Scan == IF "IndexShift" \in Dev THEN 0..(N - 2) ELSE 1..(N - 1)
 \* domain i holds a record whose checksum matches the shared data and whose signature verifies with committee[i]
 \* (signer j publishes its own signature under j, so domain i is verified with the right key - only the range differs)
-ValidAt(i, g) == i \in doms /\ i \in Signers /\ sig[i] = g
+ValidAt(i, g) == i \in doms /\ i \in Signers /\ sig[i] # <<>> /\ Head(sig[i]) = g
 RECURSIVE Collect(_, _, _)
 Collect(have, i, g) ==            \* ascending scan, stops as soon as enough signatures are held
   IF Cardinality(have) >= Need \/ i > N - 1 THEN have
@@ -110,7 +115,7 @@ Collect(have, i, g) ==            \* ascending scan, stops as soon as enough sig
 LTick ==
   /\ alive[0] /\ ~ticked[0] /\ ~Ntr /\ N > 1
   /\ Done(0)
-  /\ UNCHANGED <<doms, shared, sig, ntrIn, stx, alive, cancels, losses>>
+  /\ UNCHANGED <<doms, shared, sig, ntrIn, stx, alive, cancels, losses, elapses>>
   /\ IF TxDom \notin doms
      THEN /\ pool' = IF Sent([k |-> "reg", by |-> 0]) THEN pool ELSE pool \cup {[k |-> "reg", by |-> 0, d |-> TxDom]}
           /\ UNCHANGED <<LeaderVars, gen, badAssembled>>
@@ -139,24 +144,42 @@ LTick1 ==
   /\ N = 1 /\ alive[0] /\ ~ticked[0] /\ ~Ntr
   /\ Done(0)
   /\ pool' = IF Sent([k |-> "des", by |-> 0]) THEN pool ELSE pool \cup {[k |-> "des", by |-> 0, g |-> 0]}
-  /\ UNCHANGED <<doms, shared, sig, ntrIn, LeaderVars, stx, alive, cancels, gen, badAssembled, losses>>
+  /\ UNCHANGED <<doms, shared, sig, ntrIn, LeaderVars, stx, alive, cancels, gen, badAssembled, losses, elapses>>
 
 \* ---------------------------------------------------------------- signers
-STick(j) ==
-  /\ j \in Signers /\ alive[j] /\ ~ticked[j] /\ ~Ntr
-  /\ Done(j)
-  /\ UNCHANGED <<doms, shared, sig, ntrIn, LeaderVars, alive, cancels, gen, badAssembled, losses>>
-  /\ IF shared.gen = None THEN UNCHANGED <<pool, stx>>                          \* wait for the leader
-     ELSE IF shared.age > Life THEN stx' = [stx EXCEPT ![j] = None] /\ UNCHANGED pool
-     ELSE /\ stx' = [stx EXCEPT ![j] = shared.gen]
-          /\ IF j \notin doms
-             THEN pool' = IF Sent([k |-> "reg", by |-> j]) THEN pool ELSE pool \cup {[k |-> "reg", by |-> j, d |-> j]}
-             ELSE IF sig[j] = shared.gen THEN UNCHANGED pool                    \* published and valid
-             ELSE pool' = IF Sent([k |-> "sig", by |-> j]) THEN pool ELSE pool \cup {[k |-> "sig", by |-> j, g |-> shared.gen]}
+\* (notary.go:575-735) one loop iteration of signer j, split by what it finds:
+SPre(j) == j \in Signers /\ alive[j] /\ ~ticked[j] /\ ~Ntr
+SFrame(j) == Done(j) /\ UNCHANGED <<doms, shared, sig, ntrIn, LeaderVars, alive, cancels, gen, badAssembled, losses, elapses>>
+Current == shared.gen # None /\ shared.age <= Life
+SendSig(j, m) == pool' = IF Sent([k |-> "sig", by |-> j]) THEN pool ELSE pool \cup {[k |-> "sig", by |-> j, g |-> shared.gen, m |-> m]}
+\* no shared data yet: wait for the leader; expired data: forget the transaction, wait for the leader's update
+SWait(j) ==
+  /\ SPre(j) /\ ~Current /\ SFrame(j)
+  /\ stx' = [stx EXCEPT ![j] = None] /\ UNCHANGED pool
+\* own domain missing: register it
+SRegister(j) ==
+  /\ SPre(j) /\ Current /\ j \notin doms /\ SFrame(j)
+  /\ stx' = [stx EXCEPT ![j] = shared.gen]
+  /\ pool' = IF Sent([k |-> "reg", by |-> j]) THEN pool ELSE pool \cup {[k |-> "reg", by |-> j, d |-> j]}
+\* domain without record: first publication (addRecord)
+SPublish(j) ==
+  /\ SPre(j) /\ Current /\ j \in doms /\ sig[j] = <<>> /\ SFrame(j)
+  /\ stx' = [stx EXCEPT ![j] = shared.gen] /\ SendSig(j, "add")
+\* the first record is STALE (made for shared data the leader has re-created since - checksum mismatch - or not a valid
+\* signature): it is REPLACED, setRecord(id 0).  "StaleAdd": the checksum-mismatch branch forgets that a record exists
+\* and publishes with addRecord: the stale record stays in front, a repeated addRecord is refused as a duplicate
+SReplace(j) ==
+  /\ SPre(j) /\ Current /\ j \in doms /\ sig[j] # <<>> /\ Head(sig[j]) # shared.gen /\ SFrame(j)
+  /\ stx' = [stx EXCEPT ![j] = shared.gen] /\ SendSig(j, IF "StaleAdd" \in Dev THEN "add" ELSE "set")
+\* published and valid: nothing to do
+SKeep(j) ==
+  /\ SPre(j) /\ Current /\ j \in doms /\ sig[j] # <<>> /\ Head(sig[j]) = shared.gen /\ SFrame(j)
+  /\ stx' = [stx EXCEPT ![j] = shared.gen] /\ UNCHANGED pool
+STick(j) == SWait(j) \/ SRegister(j) \/ SPublish(j) \/ SReplace(j) \/ SKeep(j)
 
 \* a member that sees the role returns from enableNotary
 Idle(i) == alive[i] /\ ~ticked[i] /\ Ntr /\ Done(i)
-           /\ UNCHANGED <<doms, shared, sig, pool, ntrIn, LeaderVars, stx, alive, cancels, gen, badAssembled, losses>>
+           /\ UNCHANGED <<doms, shared, sig, pool, ntrIn, LeaderVars, stx, alive, cancels, gen, badAssembled, losses, elapses>>
 
 \* ---------------------------------------------------------------- chain
 Block ==
@@ -166,22 +189,40 @@ Block ==
   /\ shared' = IF \E t \in pool : t.k = "share"
                THEN [gen |-> (CHOOSE t \in pool : t.k = "share").g, age |-> 0]
                ELSE IF shared.gen = None THEN shared ELSE [shared EXCEPT !.age = IF @ > Life THEN @ ELSE @ + 1]
-  /\ sig' = [j \in Members |-> IF \E t \in pool : t.k = "sig" /\ t.by = j
-                               THEN (CHOOSE t \in pool : t.k = "sig" /\ t.by = j).g ELSE sig[j]]
+  /\ sig' = [j \in Members |->
+               LET after ==
+                     IF \E t \in pool : t.k = "sig" /\ t.by = j
+                     THEN LET t == CHOOSE t \in pool : t.k = "sig" /\ t.by = j IN
+                          IF t.m = "set" THEN <<t.g>> \o Tail(sig[j])                        \* setRecord(id 0)
+                          ELSE IF (\E k \in 1..Len(sig[j]) : sig[j][k] = t.g) \/ Len(sig[j]) >= MaxRecords
+                               THEN sig[j]                                                  \* "record already exists"
+                               ELSE Append(sig[j], t.g)                                     \* addRecord appends
+                     ELSE sig[j]
+               \* new shared data (new nonce): whatever was published before is stale from now on - marked Old, so that
+               \* the generation counter modulo G can never make an old record look current
+               IN  IF \E t \in pool : t.k = "share" THEN [k \in 1..Len(after) |-> Old] ELSE after]
   /\ ntrIn' = IF ntrIn = 1 THEN 0 ELSE IF ntrIn = None /\ \E t \in pool : t.k = "des" THEN 1 ELSE ntrIn
   /\ pool' = {}
-  /\ UNCHANGED <<LeaderVars, stx, alive, cancels, gen, badAssembled, losses>>
+  /\ UNCHANGED <<LeaderVars, stx, alive, cancels, gen, badAssembled, losses, elapses>>
+
+\* environment: a long stretch of blocks passes (members slow, absent, paused) - the shared data outlives its
+\* ValidUntilBlock whatever has been published for it so far (at most MaxElapse times, no fairness)
+Elapse ==
+  /\ shared.gen # None /\ shared.age <= Life /\ ~Ntr /\ ntrIn = None /\ elapses < MaxElapse
+  /\ ~\E t \in pool : t.k = "des"
+  /\ shared' = [shared EXCEPT !.age = Life + 1] /\ elapses' = elapses + 1
+  /\ UNCHANGED <<doms, sig, pool, ntrIn, LeaderVars, stx, alive, ticked, cancels, gen, badAssembled, losses>>
 
 \* a pooled transaction is lost before the block (acknowledged to its sender, never executed)
 Lose(t) ==
   /\ t \in pool /\ losses < MaxLoss
   /\ pool' = pool \ {t} /\ losses' = losses + 1
-  /\ UNCHANGED <<doms, shared, sig, ntrIn, LeaderVars, stx, alive, ticked, cancels, gen, badAssembled>>
+  /\ UNCHANGED <<doms, shared, sig, ntrIn, LeaderVars, stx, alive, ticked, cancels, gen, badAssembled, elapses>>
 
 Cancel(i) ==
   /\ alive[i] /\ ~Ntr /\ cancels < MaxCancel
   /\ alive' = [alive EXCEPT ![i] = FALSE] /\ cancels' = cancels + 1
-  /\ UNCHANGED <<doms, shared, sig, pool, ntrIn, LeaderVars, stx, ticked, gen, badAssembled, losses>>
+  /\ UNCHANGED <<doms, shared, sig, pool, ntrIn, LeaderVars, stx, ticked, gen, badAssembled, losses, elapses>>
 
 \* a fresh run: the closure's context is lost (absent members start only when the role is visible)
 Restart(i) ==
@@ -190,9 +231,9 @@ Restart(i) ==
   /\ ticked' = [ticked EXCEPT ![i] = TRUE]
   /\ IF i = 0 THEN ltx' = None /\ lsigs' = {} /\ fully' = FALSE /\ lgood' = TRUE /\ tried' = FALSE /\ UNCHANGED stx
      ELSE stx' = [stx EXCEPT ![i] = None] /\ UNCHANGED LeaderVars
-  /\ UNCHANGED <<doms, shared, sig, pool, ntrIn, cancels, gen, badAssembled, losses>>
+  /\ UNCHANGED <<doms, shared, sig, pool, ntrIn, cancels, gen, badAssembled, losses, elapses>>
 
-Next == LTick \/ LTick1 \/ Block \/ (\E t \in pool : Lose(t)) \/ \E i \in Members : STick(i) \/ Idle(i) \/ Cancel(i) \/ Restart(i)
+Next == LTick \/ LTick1 \/ Block \/ Elapse \/ (\E t \in pool : Lose(t)) \/ \E i \in Members : STick(i) \/ Idle(i) \/ Cancel(i) \/ Restart(i)
 
 Spec == Init /\ [][Next]_vars /\ WF_vars(LTick) /\ WF_vars(LTick1) /\ WF_vars(Block)
         /\ \A i \in Members : WF_vars(STick(i)) /\ WF_vars(Idle(i)) /\ WF_vars(Restart(i))
@@ -200,6 +241,7 @@ Spec == Init /\ [][Next]_vars /\ WF_vars(LTick) /\ WF_vars(LTick1) /\ WF_vars(Bl
 \* ---------------------------------------------------------------- properties
 TypeOK == /\ shared.gen \in {None} \cup 0..(G - 1) /\ shared.age \in 0..(Life + 1)
           /\ lsigs \subseteq Members /\ ntrIn \in {None, 0, 1}
+          /\ \A j \in Members : Len(sig[j]) <= MaxRecords
 \* C13: "needs only a majority of members including the first one": with a live majority containing member 0 the
 \* role is designated (Absent is a minority without member 0; cancelled members come back)
 NotaryMajority == <>[]Ntr
